@@ -429,7 +429,44 @@ def feature_families(seed, quick):
         if quick:
             break
     fams.append(canary_cfgs())
+    fams.append(trigger_family())
     return fams
+
+
+def trigger_family():
+    """The must-fail configurations of C12's catalogue (those that are a pure cfg: no
+    injected fault, no special state of the output path) as one family, interleaved with
+    healthy runs on the same structures.  Whether a run is *rejected* must be as
+    independent of history as its output: a validation result memoised from a healthy run
+    (or a barrier disarmed by an earlier failure) shows as a status that differs from the
+    fresh-world reference."""
+    from checks import c12
+
+    healthy = [{"item": "cterm_hid.pdb", "argv": ["--ff=PARSE", "--noopt"]},
+               {"item": "1AJJ.pdb", "window": [0, 20], "argv": ["--ff=PARSE", "--noopt"]},
+               {"item": "1AJJ.pdb", "window": [0, 20], "argv": ["--ff=AMBER"]},
+               {"item": "cterm_hid.pdb", "argv": ["--ff=AMBER", "--nodebump", "--noopt"]}]
+    fam = list(healthy)
+    seen = {corpus.cfg_key(c) for c in fam}
+    n = 0
+    for sc in c12.trigger_scenarios(quick=True):
+        run = sc["runs"][0]
+        if run.get("faults") or sc.get("pre") == "directory":
+            continue
+        k = corpus.cfg_key(run["cfg"])
+        if k in seen:
+            continue
+        seen.add(k)
+        fam.append(run["cfg"])
+        n += 1
+        if n % 12 == 0:
+            # a healthy run again every dozen triggers (same structures, other options)
+            h = dict(healthy[(n // 12) % len(healthy)])
+            h["argv"] = h["argv"] + ["--whitespace"]
+            if corpus.cfg_key(h) not in seen:
+                seen.add(corpus.cfg_key(h))
+                fam.append(h)
+    return fam
 
 
 def canary_cfgs():
